@@ -99,9 +99,12 @@ def git_view(ctx, tmpl, world, c):
     return alts, readable
 
 
-def run_worlds(ctx, binary, tmpl, cases, tag, audit=True):
+def run_worlds(ctx, binary, tmpl, cases, tag, audit=True, audit_share=1.0):
     """materialise, observe, judge by TLC, audit against git. cases carry paths/files/lines/root (+ expected fields or None)"""
-    hc = [to_harness(c, i + (0 if tag == "a" else 1000000), audit) for i, c in enumerate(cases)]
+    sample = set(range(len(cases)))
+    if audit_share < 1.0:      # a process start costs up to 100 ms on a loaded machine: the quick tier audits a seeded sample
+        sample = set(ctx.rng.sample(range(len(cases)), max(1, int(len(cases) * audit_share))))
+    hc = [to_harness(c, i + (0 if tag == "a" else 1000000), audit and i in sample) for i, c in enumerate(cases)]
     results = ctx.harness(binary, hc, timeout=1800)
     events, owner = [], []
     for i, (c, r) in enumerate(zip(cases, results)):
@@ -119,7 +122,7 @@ def run_worlds(ctx, binary, tmpl, cases, tag, audit=True):
         def one(i):
             c = cases[i]
             return i, git_view(ctx, tmpl, c["_world"], c)
-        todo = [i for i, c in enumerate(cases) if "_world" in c]
+        todo = [i for i, c in enumerate(cases) if "_world" in c and i in sample]
         with concurrent.futures.ThreadPoolExecutor(8) as ex:
             views = list(ex.map(one, todo))
         # git's view is judged by the same specification: it must be exactly GitResolve
@@ -189,12 +192,12 @@ def run(ctx):
     tmpl = os.path.join(ctx.work, "tmpl.git")
     git(["init", "-q", "--bare", tmpl], check=True)
     for bug in ("Bug_RelativeToRoot", "Bug_DupIsCycle", "Bug_ReverseOrder"):
-        ctx.tlc_mc("odb", "Alternates_Gen", consts={bug: "TRUE", "MaxEdges": 3}, workers=4, expect_violation="InvDesign", coverage=False)
+        ctx.tlc_mc("odb", "Alternates_Gen", consts={bug: "TRUE", "MaxEdges": 2}, workers=2, expect_violation="InvDesign", coverage=False)
     consts = {"N": 4, "FanOut": 2, "MaxEdges": 5, "Full": "TRUE"} if ctx.thorough else {"N": 4, "FanOut": 2, "MaxEdges": 4, "Full": "FALSE"}
     cases = ctx.tlc_gen("odb", "Alternates_Gen", consts=consts, workers=6, timeout=3000)
     ctx.cov["exhaustive"] = True
     ctx.cov["instance"] = consts
-    bad = run_worlds(ctx, binary, tmpl, cases, "a")
+    bad = run_worlds(ctx, binary, tmpl, cases, "a", audit_share=1.0 if ctx.thorough else 0.05)
     for c in cases:
         # non-trivial: more than one link is followed, or a cycle / duplicate has to be recognised
         if len(c["required"]) >= 2 or c["truecycle"] or sum(len(x) for x in c["graph"]) > len(c["required"]):
@@ -205,7 +208,7 @@ def run(ctx):
     ok = next((c for c in cases if len(c["required"]) == 3 and not c["truecycle"]), cases[0])
     ctx.sample({"graph": ok["graph"], "layout": ok["layout"], "style": ok["style"], "git_list": ok["required"], "gix": ok.get("_obs")})
 
-    nrand = 1500 if ctx.thorough else 250
+    nrand = 1500 if ctx.thorough else 150
     rnd = [random_world(ctx.rng) for _ in range(nrand)]
     bad2 = run_worlds(ctx, binary, tmpl, rnd, "b")
     for c in rnd:
